@@ -63,10 +63,16 @@ TEXT.update({
     "C17": {"technique": "fault enumeration: mem::forget after every call-string prefix of every iterator kind; ledger + structure gate + further use; ASan (no LSan) and Miri (ignore leaks)",
             "design_ref": "DESIGN.md section 5 C17", "level_note": _MEM_NOTE,
             "level_text": "Fault enumeration: the 'fault' is the program leaking the iterator; all leak points for lengths 0..=6 (quick) / 0..=9 (thorough) are enumerated."},
+    "C18": {"technique": "run-time read-out of the compile-time auto-trait table via a trait probe over a 4x4x4 witness matrix; cross-thread use under Miri's race detector",
+            "design_ref": "DESIGN.md section 5 C18", "level_note": "PARTIAL: only the Send/Sync sentence is decided. The borrowing sentence (references and borrowing iterators keep the cache borrowed) is about programs the compiler rejects; lifetimes are erased before anything runs, so runtime monitoring cannot witness it; a compile-fail probe would be a different technique and is not used. A lifetime-loosening change is invisible to this check.",
+            "level_text": "Other: the truth table is complete for the witness matrix (64 instantiations x 2 traits); the generic 'whenever' direction is sampled by those witnesses, which is what an execution-based technique can do for a compile-time property."},
+    "C19": {"technique": "MMU write trap (mprotect-ed arena) under every &self operation on 1 and 4 threads + byte hash; Miri and ThreadSanitizer race detection on reader threads",
+            "design_ref": "DESIGN.md section 5 C19", "level_note": "Trusted base: the harness' arena allocator and SIGSEGV handler, the kernel's page protection; Miri/TSan as race detectors. A store whose value equals the old one can be removed by the optimiser (then the binary really does not write); the trap sees what the release build executes, Miri sees the unoptimised MIR.",
+            "level_text": "Exploration over a pool of cache states (empty, single, tombstoned, just reallocated, constant hasher, up to ~50 entries) x every shared-reference operation x every key argument present or absent; because a read-only operation set cannot race, the trap decides the 'every interleaving' clause on the states explored."},
     "C20": {"technique": "runtime monitor: per-call Hash::hash counter vs bound 2 + departures (+ held on rebuild)",
             "design_ref": "DESIGN.md section 5 C20", "level_note": _HIST_NOTE,
             "level_text": "Exploration across cache sizes; a rehash-per-access or rescan shows as a count growing with the cache size."},
 })
 
 NOT_APPLICABLE = {p: "check under construction in this revision (see DESIGN.md section 5); will be claimed once its monitor exists" for p in
-                  ["C18", "C19"]}
+                  []}
